@@ -263,7 +263,14 @@ func (f *DefaultFanController) UpdateFanSpeed() error {
 func (f *DefaultFanController) RunInitializationSequence() (err error) {
 	fan := f.fan
 
-	err1 := f.computePwmMap()
+	if !configuration.CurrentConfig.RunFanInitializationInParallel {
+		// hold the lock for the whole sequence, not just for the pwm map computation,
+		// so that the rpm curve measurement of one fan does not overlap with the analysis of another
+		InitializationSequenceMutex.Lock()
+		defer InitializationSequenceMutex.Unlock()
+	}
+
+	err1 := f.doComputePwmMap()
 	if err1 != nil {
 		ui.Warning("Error computing PWM map: %v", err1)
 	}
@@ -573,6 +580,12 @@ func (f *DefaultFanController) computePwmMap() (err error) {
 		defer InitializationSequenceMutex.Unlock()
 	}
 
+	return f.doComputePwmMap()
+}
+
+// doComputePwmMap does the work of computePwmMap, the caller is responsible for
+// holding the InitializationSequenceMutex if necessary
+func (f *DefaultFanController) doComputePwmMap() (err error) {
 	var configOverride *map[int]int
 
 	switch f := f.fan.(type) {
